@@ -423,6 +423,8 @@ impl RLBuilder {
         if len > self.len() {
             self.flush();
             self.len = len;
+            // A run appended at the new end starts there, not where the flushed (or empty) active run was.
+            self.run = (len, 0);
         }
     }
 
